@@ -53,6 +53,15 @@ def install(it, cls_qual, log):
     it.contracts['compmech.sparse.solve'] = solve
 
 
+def solver_settings(obj):
+    """the increment settings of the non-linear solvers are the user's (not at their defaults): a linear analysis is at the full load
+    whatever they are"""
+    an = obj.attrs.get('analysis')
+    if isinstance(an, pysym.Obj):
+        for k in ('initialInc', 'minInc', 'maxInc'):
+            an.attrs[k] = real('user_' + k)
+
+
 def judge(obj, log, ret, inc_name='inc'):
     # the verdict rests on what is evaluated and solved; how the callbacks are stored (bound method, wrapper) is only quoted as a diagnosis
     probs = []
@@ -109,6 +118,7 @@ def check_panel_static(led):
             extra = dict(Nxx=real('Nxx'), Nyy=real('Nyy'), Nxy=real('Nxy')) if ref.startswith('reference') else {}
             p, kw, want, g = py_panel.build(it, geom, 'uniform', 'none', extra)
             p.attrs['forces'] = [[real('xf'), real('yf'), real('fx'), real('fy'), real('fz')]]
+            solver_settings(p)
             r = it.call(it.getattr(p, 'static'), [], dict(silent=True))
             return p, r, list(log)
         for path, out in it.explore(run):
@@ -159,6 +169,7 @@ def check_conecyl_static(led):
             extra = dict(T=real('T')) if 'torque' in load else {}
             cc = PC.new_cc(it, alphadeg=real('alphadeg'), r2=real('r2'), L=real('L'), n2=2, stack=[real('th0')], plyt=real('plyt'), laminaprop=(real('E1'),),
                            Fc=real('Fc'), pdC=False, **extra)
+            solver_settings(cc)
             r = it.call(it.getattr(cc, 'static'), [], dict(silent=True))
             return cc, r, list(log)
         for path, out in it.explore(run):
